@@ -695,3 +695,9 @@ for _p, _r in (("C01", "R-C01-assembly"), ("C02", "R-C02-rowsum")):
 _OLD_AX = "    vecfield = vecfield.at[:, :-1].add((voltages[:, 1:] - voltages[:, :-1]) * uppers)\n    vecfield = vecfield.at[:, 1:].add((voltages[:, :-1] - voltages[:, 1:]) * lowers)"
 P("C01", SV, _OLD_AX, "    dv = voltages[:, 1:] - voltages[:, :-1]\n    vecfield = vecfield.at[:, :-1].add(dv * uppers)\n    vecfield = vecfield.at[:, 1:].add(-dv * lowers)")
 B("C01", SV, _OLD_AX, "    dv = voltages[:, 1:] - voltages[:, :-1]\n    vecfield = vecfield.at[:, :-1].add(dv * uppers)\n    vecfield = vecfield.at[:, 1:].add(dv * lowers)", "R-C01-explicit")
+# the level loop as an index loop
+_OLD_LL = "    for cil, pil in zip(\n        reversed(idx.children_in_level), reversed(idx.parents_in_level)\n    ):\n        diags, lowers, solves, uppers = _triang_level(\n            cil[:, 0],"
+_NEW_LL = "    num_levels = len(idx.children_in_level)\n    for level in range(num_levels - 1, -1, -1):\n        cil, pil = idx.children_in_level[level], idx.parents_in_level[level]\n        diags, lowers, solves, uppers = _triang_level(\n            cil[:, 0],"
+for _p, _r in (("C01", "R-C01-schedule"), ("C02", "R-C02-schedule")):
+    P(_p, SV, _OLD_LL, _NEW_LL)
+    B(_p, SV, _OLD_LL, _NEW_LL.replace("range(num_levels - 1, -1, -1)", "range(num_levels)"), _r)
